@@ -288,6 +288,8 @@ def int_boundaries():
 
 
 BOUND = int_boundaries()
+# always present, whatever the PRNG draws
+ESSENTIAL = [0, 1, 2, 127, 128, 129, 255, 256, 32767, 32768, 65535, 65536, M63 - 1, M63, M63 + 1, 1 << 64]
 SHIFTS = [0, 1, 7, 8, 9, 63, 64, 255, 256, 257, 258, 300, 1000, 1 << 64]
 BYTES_FIXED = [b'', b'\x00', b'\x01', b'\x7f', b'\x80', b'\xff', b'\x00\x80', b'\x00\x7f', b'\xff\x7f', b'\xff\x80',
                b'\x00\x00', b'\xff\xff', b'\x80\x00', b'\x7f\xff', b'\x00\xff', b'\x00\x00\x01', b'\xff\xff\xfe',
@@ -389,10 +391,12 @@ def build_cases(ctx):
             well = t in REF_UN[op] or (op, (t,)) in LENIENT
             vals = []
             if well:
-                if t in ('int', 'nat', 'timestamp') and op in ('BYTES', 'ABS', 'NEG', 'ISNAT', 'NOT', 'INT'):
-                    pool = BOUND + [-x for x in BOUND] if t != 'nat' else BOUND
+                if t in ('int', 'nat', 'timestamp', 'mutez') and op in ('BYTES', 'ABS', 'NEG', 'ISNAT', 'NOT', 'INT'):
+                    pool = BOUND + [-x for x in BOUND] if t in ('int', 'timestamp') else BOUND
                     k = ctx.n(45, len(pool))
+                    vals += ESSENTIAL + ([-x for x in ESSENTIAL] if t in ('int', 'timestamp') else [])
                     vals += rng.sample(pool, min(k, len(pool)))
+                    vals = [v for v in vals if valid_operand(t, v)]
                 if t == 'bytes':
                     vals += BYTES_FIXED
                 vals += [gen_val(rng, t) for _ in range(n_well)]
@@ -410,6 +414,16 @@ def build_cases(ctx):
                 well = tys in REF_BIN[op] or (op, tys) in LENIENT
                 pairs = []
                 if well:
+                    if 'bytes' not in tys and 'bool' not in tys:
+                        x, y = gen_val(rng, ta), gen_val(rng, tb)
+                        ess = [(0, 0), (0, y), (x, 0), (1, y), (x, 1), (1, 1), (x, x) if ta == tb else (x, y)]
+                        if ta in ('int', 'timestamp'):
+                            ess += [(-1, y), (-1, 0), (-abs(x) - 1, y)]
+                        if tb in ('int', 'timestamp'):
+                            ess += [(x, -1), (0, -1), (x, -abs(y) - 1)]
+                        pairs += [p for p in ess if valid_operand(ta, p[0]) and valid_operand(tb, p[1])]
+                    else:
+                        pairs += [(False, False), (False, True), (True, False), (True, True)] if tys == ('bool', 'bool') else []
                     for _ in range(ctx.n(1, 6)):
                         pairs += targeted(rng, op, tys)
                     pairs += [(gen_val(rng, ta), gen_val(rng, tb)) for _ in range(n_well)]
